@@ -1,4 +1,4 @@
-import Ledger.Proofs.CoreReads
+import Ledger.Proofs.CoreInsPcv
 
 /-!
 C05 — Point-in-time and window reads equal the history fold (Spec / algebra part).
@@ -30,10 +30,20 @@ theorem first_value_pcev_eq_fold (ops : List StoreOp) (st : Store) (h : runOps o
   rw [effectiveVolumesAt_eq_window (MovesInv_runOpsFrom ops MovesInv_empty h).pcev,
     movesWindowVolumes_eq_fold h]
 
+/-- Insertion-date mode: in every reachable store whose insertion dates never decrease along the
+    commit order (a sequential history), the post-commit volumes carried by the latest move
+    (largest seq) inserted at or before `pit` are the fold of all postings of the transactions
+    inserted at or before `pit` (uses C03's move-level invariant `PCV_Inv`). -/
+theorem first_value_pcv_eq_fold (ops : List StoreOp) (st : Store) (h : runOps ops = .ok st)
+    (hmono : st.txRecs.Pairwise (fun a b => a.insertedAt ≤ b.insertedAt)) (k : Key) (pit : Int) :
+    insertionVolumesAt st.moves k pit = volumesAt st.txRecs { pit := some pit } .insertion k :=
+  insertionVolumesAt_eq_fold h hmono k pit
+
 example : (runOps [.commit { postings := [⟨"world", "a", 10, "USD"⟩], timestamp := 5, insertedAt := 7 },
                    .commit { postings := [⟨"a", "b", 4, "USD"⟩], timestamp := 1, insertedAt := 8 }]).toOption.map
-            (fun st => (effectiveVolumesAt st.moves ("a", "USD") 3, effectiveVolumesAt st.moves ("a", "USD") 5,
-                        movesWindowVolumes st.moves { oot := some 8 } .insertion ("a", "USD"))) =
-          some (⟨0, 4⟩, ⟨10, 4⟩, ⟨0, 4⟩) := by decide
+            (fun st => [effectiveVolumesAt st.moves ("a", "USD") 3, effectiveVolumesAt st.moves ("a", "USD") 5,
+                        movesWindowVolumes st.moves { oot := some 8 } .insertion ("a", "USD"),
+                        insertionVolumesAt st.moves ("a", "USD") 7, insertionVolumesAt st.moves ("a", "USD") 8]) =
+          some [⟨0, 4⟩, ⟨10, 4⟩, ⟨0, 4⟩, ⟨10, 0⟩, ⟨10, 4⟩] := by decide
 
 end Ledger.C05store
